@@ -16,15 +16,22 @@ from vf.common import Check
 ANCHORS = ['InterpreterImpl.cpp', 'InterpreterImpl.h', 'BasicDelayedEventQueue.cpp', 'BasicDelayedEventQueue.h', 'LargeMicroStep.cpp', 'FastMicroStep.cpp', 'USCXMLInvoker.cpp', 'BasicEventQueue.cpp', 'Interpreter.cpp']
 
 
-def automaton(results_with_ops):
-    """results_with_ops: list of ('R', code) / ('OP', name). -> None or reason"""
+def automaton(results_with_ops, cancel_ops_visible=False):
+    """results_with_ops: list of ('R', code) / ('OP', name). -> None or reason
+    cancel_ops_visible: the sequence contains every cancel() as an ('OP', 'cancel') item (single-threaded scripts); CANCELLED is then
+    only acceptable after a cancel() issued since the interpreter was created / reset."""
     st = 'new'    # new -> init -> running -> cancelled -> finished
+    cancel_requested = False
     for kind, v in results_with_ops:
         if kind == 'OP':
             if v in ('reset', 'create', 'deser'): st = 'new' if v != 'deser' else 'running'
+            if v in ('reset', 'create'): cancel_requested = False
+            if v == 'cancel': cancel_requested = True
             if v == 'destroy': st = 'destroyed'
             continue
         code = v
+        if code == 6 and cancel_ops_visible and not cancel_requested:
+            return 'step() returned CANCELLED although cancel() was not called since creation/reset'
         if st == 'new':
             if code != 2: return 'first step() returned %d, not INITIALIZED' % code
             st = 'running'
@@ -64,7 +71,7 @@ def fuzz_work(job):
             elif r < 0.96: ops.append('state')
             else: ops.append('destroy'); alive = False
         jid = 'a%d' % sd
-        jobs.append((jid, T.job_text(jid, rng.choice(['large', 'fast']), C.render(ch, dm), ops=ops, flags=['novars'])))
+        jobs.append((jid, T.job_text(jid, rng.choice(['large', 'fast', 'default']), C.render(ch, dm), ops=ops, flags=['novars'])))
         meta[jid] = (ops, C.render(ch, dm), dm)
     raw = T.run_jobs(binary, jobs)
     out = []
@@ -90,7 +97,7 @@ def fuzz_work(job):
             if first_recv_before_step and (lastop or '').startswith(('recv', 'cancel')): key = 'api:receive-or-cancel-before-first-step-crashes'
             rec['bad'].append((key, dict(rep, last_op=lastop, summary=str(r['crash'])[:200], stderr=r.get('stderr'))))
         else:
-            why = automaton(seq)
+            why = automaton(seq, cancel_ops_visible=True)
             if why: rec['bad'].append(('lifecycle:' + why.split(',')[0][:70], dict(rep, results=[x for x in seq][:80], reason=why)))
         out.append(rec)
     return out
@@ -173,14 +180,19 @@ def reset_work(job):
             # state that lives outside <datamodel>: a Lua global created by a script. reset() has to forget it like everything else
             for st in ch.proper()[:2]:
                 st.onentry.insert(0, [('xml', '<script>gcount = (gcount or 0) + 1</script>'), ('xml', '<log label="G" expr="gcount"/>')])
-        xml = C.render(ch, dm); eng = rng.choice(['large', 'fast'])
+        xml = C.render(ch, dm); eng = rng.choice(['large', 'fast', 'default'])
 
         def script(h):
             ops = []
             for e in h: ops += ['step0'] * 12 + ['recv ' + e]
             return ops + ['step0'] * 14
         a = 'ra%d' % sd; b = 'rb%d' % sd
-        jobs.append((a, T.job_text(a, eng, xml, ops=script(h1) + ['reset'] + script(h2) + ['vars'], flags=['novars'])))
+        first = script(h1)
+        r = rng.random()
+        if r < 0.12: first = ['cancel']                                            # cancelled before the first step, then reset
+        elif r < 0.3: first = first + ['cancel'] + ['step0'] * rng.randint(0, 3)     # cancelled (finalised or not yet) when reset() is called
+        elif r < 0.4: first = first[:rng.randint(1, len(first))]                    # reset in the middle of a macrostep (internal events pending)
+        jobs.append((a, T.job_text(a, eng, xml, ops=first + ['reset'] + script(h2) + ['vars'], flags=['novars'])))
         jobs.append((b, T.job_text(b, eng, xml, ops=script(h2) + ['vars'], flags=['novars'])))
         meta[sd] = (a, b, xml, h1, h2, eng, dm)
     raw = T.run_jobs(binary, jobs)
